@@ -5,6 +5,7 @@
 -/
 import Nlmodel.Model.Value
 import Nlmodel.Proofs.Lemmas.FloatRound
+import Nlmodel.Proofs.Lemmas.FloatRem
 namespace Nl
 namespace C06
 
@@ -274,6 +275,12 @@ theorem C06_float_ofRat (s : Bool) {n d : Nat} (hn : 0 < n) (hd : 0 < d) :
     ((n < d * F64R.ovfThreshold ∧ F64.isFinite (F64.ofRat s n d) = true ∧ F64R.IsRN n d (F64.absBits (F64.ofRat s n d))) ∨
      (d * F64R.ovfThreshold ≤ n ∧ F64.ofRat s n d = F64.inf s)) :=
   F64R.ofRat_spec s hn hd
+
+/-- `%` on floats is EXACT (IEEE `fmod`): for finite operands and a non-zero divisor the remainder of the magnitudes
+    (in units of 2^-1074) is itself representable, so no rounding happens; the result has the sign of the dividend -/
+theorem C06_float_rem_exact {x y : F64.Bits} (hx : F64.isFinite x = true) (hy : F64.isFinite y = true) (hz : F64.isZero y = false) :
+    ∃ a, a < F64.infBits ∧ F64R.V a = F64R.mag x % F64R.mag y ∧ F64.rem x y = F64.mk (F64.isNeg x) a :=
+  F64R.rem_exact hx hy hz
 
 /-- comparison of floats that are not NaN is the order of their exact values (so `-0 = +0`, and `<` is a strict
     total order on the non-NaN floats that agrees with the reals) -/
